@@ -28,7 +28,8 @@ RULE = ('BLIF/bench AST + text generated together; Output trace of the imported 
         'vs Coq importer model, Coq BLIF semantics and an independent Python evaluator. Families: '
         '(1) every single-output cover of n<=2 inputs with <=3 ordered rows and every set of <=3 distinct rows '
         'over n=3 inputs (plus shuffled/duplicated samples), all 2^n valuations, constant covers; '
-        '(2) .latch with each init code 0/1/2/3/omitted; (3) every cell of dff_names with the pins its name '
+        '(2) .latch with each init code 0/1/2/3/omitted, plus several latches on ONE next-state net with every '
+        'ordered pair of init codes (and sampled triples/quadruples), compared from cycle 0; (3) every cell of dff_names with the pins its name '
         'demands, driven by a de Bruijn sequence over all 16 (D,E,S,R) valuations (every window of 3 consecutive '
         'cycles occurs) plus from-reset prefixes; (4) random hierarchical designs (one- and two-level .subckt, '
         'state inside instances, outputs read internally, bit-indexed vector ports) imported with '
@@ -37,7 +38,10 @@ RULE = ('BLIF/bench AST + text generated together; Output trace of the imported 
         'random stimulus (any permutation of port bits changes the trace), ports declared in ascending and in '
         'shuffled order, merge in {True, False}; ports whose indices do not start at 0 and a lone a[0] are tried and '
         'counted/skipped when the importer rejects them; merged port values go through the Coq vec_bit/vec_merge '
-        'of C12_vector_ports; (5) random .bench netlists with 2-ary and n-ary gates and DFFs. '
+        'of C12_vector_ports; (4c) import SESSIONS: sequences of imports in one process whose clock input, clock-buffer alias '
+        '(.names clk c) / custom clock_name and data inputs are drawn from one pool of names (clk c ck phi gclk x), so a '
+        'name registered as a clock by one import is plain data in a later one; each import is compared on its own '
+        '(the semantics has no history) and a failing case replays with the list of earlier imports; (5) random .bench netlists with 2-ary and n-ary gates and DFFs. '
         'A case is distinct by its AST and non-trivial when its outputs depend on an input or on state '
         '(covers: the function is not constant, except the two constant covers themselves).')
 IMPORTS = ('From Coq Require Import ZArith List Bool String.\n'
@@ -51,7 +55,8 @@ TRUSTED = [
     'py/genfrag_C12.py: translator of flop_next / dff_names / latch init map / cover literals / ISCAS dispatch',
 ]
 ASSUMPTIONS = [
-    'one global positive-edge clock named clk, passed to sub-circuits as clk=clk; clocks never feed covers',
+    'one global positive-edge clock (named clk or given as clock_name), optionally through one clock buffer '
+    '(.names clk alias); sub-circuits receive it on their formal clk; clocks and their aliases never feed logic',
     'covers are on-set covers (output plane 1); off-set rows are rejected by the importer (checked: PyrtlError)',
     'well-formed covers: every row as wide as the input list; a cover with inputs has >= 1 row '
     '(".names a b o" with no rows drives netio[0] instead of o and is rejected downstream); '
@@ -69,6 +74,8 @@ PL = {'0': 'P0', '1': 'P1', '-': 'PD'}
 class Model(object):
     def __init__(self, name, mid, inputs, outputs, cmds):
         self.name, self.mid, self.inputs, self.outputs, self.cmds = name, mid, inputs, outputs, cmds
+        self.clock = 'clk'      # name of the clock input of this model (not part of the AST: clocks carry no data)
+        self.alias = None       # optional clock-buffer net: '.names <clock> <alias> / 1 1', state elements use it
         self.ids = {}
         for s in self.signals():
             self.ids.setdefault(s, len(self.ids))
@@ -107,19 +114,23 @@ def blif_text(models, top):
     """models: list of Model (top first)."""
     lines = []
     for m in models:
+        eff = m.alias or m.clock
         lines.append('.model %s' % m.name)
-        lines.append('.inputs ' + ' '.join(['clk'] + m.inputs))
+        lines.append('.inputs ' + ' '.join([m.clock] + m.inputs))
         lines.append('.outputs ' + ' '.join(m.outputs))
+        if m.alias:
+            lines.append('.names %s %s' % (m.clock, m.alias))
+            lines.append('1 1')
         for c in m.cmds:
             if c[0] == 'names':
                 lines.append('.names ' + ' '.join(c[1]))
                 for r in c[2]:
                     lines.append((r + ' 1') if r else '1')
             elif c[0] == 'latch':
-                lines.append('.latch %s %s re clk%s' % (c[1], c[2], '' if c[3] is None else ' %d' % c[3]))
+                lines.append('.latch %s %s re %s%s' % (c[1], c[2], eff, '' if c[3] is None else ' %d' % c[3]))
             elif c[0] == 'flop':
                 _, cell, d, q, e, s, r = c
-                t = '.subckt %s C=clk D=%s' % (cell, d)
+                t = '.subckt %s C=%s D=%s' % (cell, eff, d)
                 if e is not None:
                     t += ' E=%s' % e
                 t += ' Q=%s' % q
@@ -129,7 +140,8 @@ def blif_text(models, top):
                     t += ' R=%s' % r
                 lines.append(t)
             elif c[0] == 'subckt':
-                lines.append('.subckt %s %s clk=clk' % (c[1], ' '.join('%s=%s' % fa for fa in c[2])))
+                sub = next(x for x in models if x.name == c[1])
+                lines.append('.subckt %s %s %s=%s' % (c[1], ' '.join('%s=%s' % fa for fa in c[2]), sub.clock, eff))
         lines.append('.end')
         lines.append('')
     return '\n'.join(lines)
@@ -324,9 +336,17 @@ def py_blif_run(lib, top, ogroups, igroups, inss):
 
 
 # ----------------------------------------------------------------------------- implementation under test
-def impl_blif_run(text, merge, igroups, ogroups, inss):
+# every earlier import of this process that used a clock alias or a non-default clock_name, in order: the
+# block built for a file must not depend on it, so it is part of a failing case's replay
+HISTORY = []
+
+
+def impl_blif_run(text, merge, igroups, ogroups, inss, clock_name='clk'):
     pyrtl.reset_working_block()
-    pyrtl.input_from_blif(text, merge_io_vectors=merge)
+    if clock_name == 'clk':
+        pyrtl.input_from_blif(text, merge_io_vectors=merge)
+    else:
+        pyrtl.input_from_blif(text, merge_io_vectors=merge, clock_name=clock_name)
     block = pyrtl.working_block()
     tracer = pyrtl.SimulationTrace(block=block)
     sim = pyrtl.Simulation(tracer=tracer, block=block)
@@ -345,14 +365,22 @@ def run_blif_case(ctx, fam, key, models, inss, merge, fuel=None, nontrivial=None
     text = blif_text(models, top)
     ig = port_groups(top.inputs, merge)
     og = port_groups(top.outputs, merge)
-    rep = {'family': fam, 'blif': text, 'merge_io_vectors': merge,
+    rep = {'family': fam, 'blif': text, 'merge_io_vectors': merge, 'clock_name': top.clock,
            'input_ports': [p for p, _ in ig], 'output_ports': [p for p, _ in og], 'inputs': inss,
-           'repro': 'pyrtl.input_from_blif(blif, merge_io_vectors=%s); Simulation.step per input row' % merge}
+           'repro': 'for h in history: input_from_blif(h.blif, clock_name=h.clock_name) on a fresh working block; then '
+                    'pyrtl.input_from_blif(blif, merge_io_vectors=%s, clock_name=%r); Simulation.step per input row'
+                    % (merge, top.clock)}
     if extra:
         rep.update(extra)
+    nhist = len(HISTORY)
     expected = py_blif_run(lib, top, og, ig, inss)
     try:
-        got, block = impl_blif_run(text, merge, ig, og, inss)
+        try:
+            got, block = impl_blif_run(text, merge, ig, og, inss, top.clock)
+        finally:
+            rep['history'] = HISTORY[:nhist] if fam == 'session' or nhist <= 40 else HISTORY[nhist - 40:nhist]
+            if top.clock != 'clk' or any(m.alias for m in models):
+                HISTORY.append({'blif': text, 'clock_name': top.clock, 'merge_io_vectors': merge})
     except Exception as e:  # the importer / simulator rejected a file of the supported subset
         if reject_ok is not None:     # outside the supported subset: rejection is acceptable, count and skip
             ctx.count('rejected_outside_subset', '%s(%s)' % (reject_ok, type(e).__name__))
@@ -529,6 +557,9 @@ def de_bruijn(k, n):
     return seq + seq[:n - 1]
 
 
+INIT_CODES = (0, 1, 2, 3, None)
+
+
 def run_latches(ctx):
     pend = []
     for trial in range(2 if ctx.tier == 'quick' else 20):
@@ -536,7 +567,7 @@ def run_latches(ctx):
         ins = ['a', 'b']
         cmds = []
         outs = []
-        for code in (0, 1, 2, 3, None):
+        for code in INIT_CODES:
             tag = 'n' if code is None else str(code)
             d, q = 'd' + tag, 'q' + tag
             rows = [''.join(rng.choice('01-') for _ in range(3)) for _ in range(rng.randint(1, 3))]
@@ -544,11 +575,40 @@ def run_latches(ctx):
             cmds.append(('latch', d, q, code))
             outs.append(q)
             ctx.count('latch_init', tag)
+            # further latches on the same next-state net, each with its own init code
+            for k in range(rng.randint(0, 2)):
+                q2 = '%s_%d' % (q, k)
+                cmds.append(('latch', d, q2, rng.choice(INIT_CODES)))
+                outs.append(q2)
         rng.shuffle(cmds)
         m = Model('latches', 0, ins, outs, cmds)
         inss = [[rng.randint(0, 1), rng.randint(0, 1)] for _ in range(8)]
         pend.append(run_blif_case(ctx, 'latch', trial, [m], inss, True, sample=(trial == 0)))
-    # the initial value itself: Q in cycle 0 must be the init code for 0 / 1
+    # several latches fed by ONE next-state net: every ordered pair of init codes (and sampled triples),
+    # latches listed in both orders relative to the cover that drives the net
+    for variant in range(2 if ctx.tier == 'quick' else 8):
+        rng = ctx.sub_rng('latch-fan', variant)
+        groups = [list(p) for p in itertools.product(INIT_CODES, repeat=2)]
+        groups += [[rng.choice(INIT_CODES) for _ in range(rng.randint(3, 4))] for _ in range(10)]
+        cmds, outs = [], []
+        for g, codes in enumerate(groups):
+            d = 'n%d' % g
+            part = [('names', ['a', 'b', d], rand_cover(rng, 2))]
+            for j, code in enumerate(codes):
+                q = 'q%d_%d' % (g, j)
+                part.append(('latch', d, q, code))
+                outs.append(q)
+            ctx.count('latch_fanout_per_d_net', len(codes))
+            if len(codes) == 2:
+                ctx.count('latch_shared_d_init_pair', '%s,%s' % tuple('-' if c is None else c for c in codes))
+            if variant % 2:
+                rng.shuffle(part)
+            cmds.extend(part)
+        if variant >= 2:
+            rng.shuffle(cmds)
+        m = Model('latchfan', 0, ['a', 'b'], outs, cmds)
+        inss = [[rng.randint(0, 1), rng.randint(0, 1)] for _ in range(6)]
+        pend.append(run_blif_case(ctx, 'latch', ('fan', variant), [m], inss, True, sample=False))
     settle_blif(ctx, pend, 'c12latch')
 
 
@@ -825,6 +885,83 @@ def run_vectors(ctx):
                                       reject_ok='indices-start-at-%d' % start))
     settle_blif(ctx, pend, 'c12vec')
 
+
+# ----------------------------------------------------------------------------- family 4c: import sessions
+# The block built for a file must not depend on what was imported before it in the same process.  A session
+# is a sequence of imports whose clock inputs, clock-buffer aliases and data inputs are all drawn from one
+# small pool of names, so a name that is a clock (or a clock alias, or a custom clock_name) in one import is
+# an ordinary data input, output driver or internal net in a later one, and vice versa.
+NAME_POOL = ['clk', 'c', 'ck', 'phi', 'gclk', 'x']
+
+
+def gen_session_model(rng, i):
+    clock = rng.choice(['clk', 'clk', 'clk', 'c', 'phi', 'ck'])
+    alias = rng.choice([None, None, 'c', 'ck', 'gclk', 'phi', 'x'])
+    if alias == clock:
+        alias = None
+    # ('clk' itself can never be data: PyRTL refuses any wire of that name, 'Clock signals should never be explicit')
+    free = [n for n in NAME_POOL if n not in (clock, alias, 'clk')]
+    ins = rng.sample(free, rng.randint(1, min(3, len(free)))) + ['a', 'b'][:rng.randint(1, 2)]
+    rng.shuffle(ins)
+    cmds, outs, models = [], [], []
+    avail = list(ins)
+    for k in range(rng.randint(1, 2)):
+        kk = rng.randint(1, min(3, len(avail)))
+        w = 'w%d' % k
+        cmds.append(('names', rng.sample(avail, kk) + [w], rand_cover(rng, kk)))
+        avail.append(w)
+    r = rng.random()
+    if r < 0.45:
+        kk = rng.randint(1, min(3, len(avail)))
+        cmds.append(('names', rng.sample(avail, kk) + ['sd'], rand_cover(rng, kk)))
+        for j in range(rng.randint(1, 3)):
+            cmds.append(('latch', 'sd', 'sq%d' % j, rng.choice(INIT_CODES)))
+            outs.append('sq%d' % j)
+            avail.append('sq%d' % j)
+    elif r < 0.75:
+        cell = rng.choice(('$_DFF_P_', '$_DFFE_PP_', '$_SDFF_PN1_', '$_DFFSR_PPP', '$_SDFFCE_PP0N_'))
+        info = cell_info(cell)
+        pick = lambda: rng.choice(avail)
+        cmds.append(('flop', cell, pick(), 'sq0', pick() if info['en'] is not None else None,
+                     pick() if info['set'] is not None else None, pick() if info['rst'] is not None else None))
+        outs.append('sq0')
+        avail.append('sq0')
+    else:
+        leaf = gen_leaf(rng, 'leaf', 10, vec_formals=False)
+        binds = [(f, rng.choice(avail)) for f in leaf.inputs]
+        for f in leaf.outputs:
+            binds.append((f, 'u_' + f))
+            avail.append('u_' + f)
+            outs.append('u_' + f)
+        rng.shuffle(binds)
+        cmds.append(('subckt', leaf.name, binds))
+        models.append(leaf)
+    kk = rng.randint(1, min(3, len(avail)))
+    cmds.append(('names', rng.sample(avail, kk) + ['o'], rand_cover(rng, kk)))
+    outs.append('o')
+    rng.shuffle(cmds)
+    top = Model('s%d' % i, 1, ins, outs, cmds)
+    top.clock, top.alias = clock, alias
+    return [top] + models
+
+
+def run_sessions(ctx):
+    nsess, ncase = (1, 36) if ctx.tier == 'quick' else (12, 48)
+    pend = []
+    for sidx in range(nsess):
+        for i in range(ncase):
+            rng = ctx.sub_rng('session', sidx, i)
+            models = gen_session_model(rng, i)
+            top = models[0]
+            ctx.count('session_clock_name', top.clock)
+            ctx.count('session_clock_alias', top.alias)
+            for nm in top.inputs:
+                if nm in NAME_POOL:
+                    ctx.count('session_data_input_named', nm)
+            inss = [[rng.randint(0, 1) for _ in top.inputs] for _ in range(6)]
+            pend.append(run_blif_case(ctx, 'session', (sidx, i), models, inss, True, sample=(sidx == 0 and i == 3)))
+    settle_blif(ctx, pend, 'c12sess')
+
 # ----------------------------------------------------------------------------- family 5: ISCAS .bench
 NARY = ('AND', 'OR', 'NAND', 'NOR', 'XOR')
 
@@ -1010,6 +1147,7 @@ def run(ctx):
     run_flops(ctx)
     run_hier(ctx)
     run_vectors(ctx)
+    run_sessions(ctx)
     run_bench(ctx)
 
 
@@ -1022,8 +1160,13 @@ def replay(ctx, data):
             pyrtl.input_from_iscas_bench(rep['bench'])
         names_in, names_out = rep['input_names'], rep['output_names']
     else:
+        for h in rep.get('history', []):
+            pyrtl.reset_working_block()
+            pyrtl.input_from_blif(h['blif'], merge_io_vectors=h.get('merge_io_vectors', True),
+                                  clock_name=h.get('clock_name', 'clk'))
         pyrtl.reset_working_block()
-        pyrtl.input_from_blif(rep['blif'], merge_io_vectors=rep.get('merge_io_vectors', True))
+        pyrtl.input_from_blif(rep['blif'], merge_io_vectors=rep.get('merge_io_vectors', True),
+                              clock_name=rep.get('clock_name', 'clk'))
         names_in, names_out = rep['input_ports'], rep['output_ports']
     sim = pyrtl.Simulation()
     got = []
